@@ -84,6 +84,14 @@ CLAIMED = {
             "magnitudes of cancelling sums are measured by their terms; three open known findings (removable "
             "singularities of the two-loop THDM formulas)",
             "4/C11"),
+    "C19": ("property-based testing (Hypothesis): stateful call-order generation with complete before/after state dumps "
+            "(sequential purity), order permutations of batches, and generated thread plans executed under ThreadSanitizer",
+            "Generated models, function subsets/orders, interleaved foreign models and batches are checked for argument "
+            "preservation (getter dump + raw object image hash), bit-identical repeatability, copy- and history-independence; "
+            "generated 2..16-thread plans (own and shared const models, concurrent construction, yields) must produce zero "
+            "TSan reports and exactly the sequential results.",
+            "TSan sees only executed interleavings; std::cerr writes of the library are suppressed (not part of the property)",
+            "4/C19"),
     "C20": ("property-based testing (Hypothesis): unitarity and rejection oracle for CKM construction, defining relations "
             "of EW quantities, monotonicity/composition/boundary relations and an mpmath reference for running masses",
             "Generated Wolfenstein parameters inside/at/outside the admissible box, angles, SM inputs and scales over "
